@@ -169,12 +169,12 @@ def run(ck):
                "model and the documented transition table / source states / port rule are checked directly; plus exact restart and install "
                "timelines and install/uninstall registry agreement; non-trivial = sequence containing restart/disable/pause/close")
     coq_props(ck)
-    gen_tie.check(ck, ["service"])
+    gen_tie.check(ck, ["service", "software"])
     rng = ck.rng
     coq_in = []
     b = SwBench()
     items = b.services + b.apps
-    per = ck.n(3, 14)
+    per = ck.n(8, 24)
     for name in items:
         for k in range(per):
             bb = SwBench()
